@@ -345,6 +345,21 @@ func c05(env *core.Env, unify bool) {
 			start, startClass = []string{"a b", "x&n=1", "q?last=z", "100%25", "é", "a+b"}[c.Int("start.meta", 6)], "metachars"
 		}
 	}
+	if what != "Repositories" {
+		// a select layer may hide the repository itself
+		cur := viewRepo
+		for i := len(layers) - 1; i >= 0; i-- {
+			switch layers[i].kind {
+			case "sub":
+				cur = layers[i].prefix + "/" + cur
+			case "select":
+				if !layers[i].allow(cur) {
+					view = nil
+					env.Probe("c05:repository-hidden-by-select")
+				}
+			}
+		}
+	}
 	var expected []string
 	for _, x := range view {
 		if start == "" || x > start {
@@ -433,6 +448,11 @@ func c05(env *core.Env, unify bool) {
 		if fired && faultKind == "transport" {
 			env.Failf(class("error-swallowed"), "%s: page %d suffered a transport fault but the iteration ended without error (delivered %v)", op, faultAt, got)
 		}
+	} else if fired {
+		// The consumer stopped before the failing source's error surfaced; what it got
+		// (already checked: genuine, ascending, duplicate-free) may lack items of that
+		// source, and the iteration would have ended with the error had it gone on.
+		env.Probe("c05:stopped-before-error-surfaced")
 	} else if !slices.Equal(got, expected[:min(len(expected), len(got))]) {
 		env.Failf(class("wrong-prefix"), "%s with a consumer stopping after %d delivered %v, want a prefix of %v", op, stopAfter, got, expected)
 	}
@@ -444,9 +464,11 @@ func c05(env *core.Env, unify bool) {
 				nreq++
 			}
 		}
-		budget := (len(expected)+pageSize-1)/pageSize + 2
+		// wrappers outside the hop may filter items away, so the number of pages is
+		// bounded by what the backends hold, not by what the caller finally sees
+		budget := (len(backendItems)+pageSize-1)/pageSize + 2
 		if nreq > budget {
-			env.Failf(class("too-many-requests"), "%s needed %d requests for %d items with page size %d (budget %d)", op, nreq, len(expected), pageSize, budget)
+			env.Failf(class("too-many-requests"), "%s needed %d requests for at most %d items with page size %d (budget %d)", op, nreq, len(backendItems), pageSize, budget)
 		}
 	}
 }
